@@ -407,6 +407,34 @@ pub fn run(tier: Tier) -> i32 {
             // cast feeding a wider operation and cast of a constant
         }
     }
+    // ---- cast chains `x as A as B` (every intermediate and final type; a chain must not be
+    // shortened unless the intermediate type really loses nothing)
+    {
+        let sources: Vec<Ty> = if tier == Tier::Quick { vec![Ty::Int(IntTy::U8), Ty::Int(IntTy::I8), Ty::Int(IntTy::U16), Ty::Int(IntTy::I64), Ty::Bool] } else { prims.clone() };
+        for from in &sources {
+            let inputs: Vec<Vec<Val>> = match from {
+                Ty::Bool => vec![vec![Val::Bool(false)], vec![Val::Bool(true)]],
+                Ty::Int(t) if t.bits() <= 8 => singles(&full_domain(*t), *t),
+                Ty::Int(t) => singles(&boundary(*t, true), *t),
+                _ => unreachable!(),
+            };
+            let inputs = Arc::new(inputs);
+            for mid in &prims {
+                for to in &prims {
+                    if *mid == Ty::Bool && *from == Ty::Bool {
+                        continue;
+                    }
+                    jobs.push(Job {
+                        block: format!("cast-chain/{}", show_ty(from)),
+                        site: format!("cast-chain/{}->{}->{}", show_ty(from), show_ty(mid), show_ty(to)),
+                        prog: Program::simple_main(vec![("x", from.clone())], to.clone(), vec![expr_stmt(cast(cast(var("x"), mid.clone()), to.clone()))]),
+                        inputs: inputs.clone(),
+                        exhaustive_block: matches!(from, Ty::Bool) || matches!(from, Ty::Int(t) if t.bits() <= 8),
+                    });
+                }
+            }
+        }
+    }
 
     let attr = Attribution { value: vec!["C03"], panic: vec!["C03"], check_loc: false, structural: false, expect_zero_and: false, configs: if tier == Tier::Quick { vec![CONFIGS[0], CONFIGS[1]] } else { CONFIGS.to_vec() } };
     let _ = Config { register: false, dedup: true };
@@ -448,7 +476,7 @@ pub fn run(tier: Tier) -> i32 {
         coverage: json!({
             "evaluations": counters.get("evaluations"),
             "distinct_nontrivial": counters.get("nontrivial_programs"),
-            "rule": "one program per (operator, type, shape in {var-var, var-const, const-var}, constant); 8-bit operand types and 8/16-bit cast sources are swept over their whole value domain, wider types over boundary sets (all 2^k, 2^k+-1, MIN/MAX neighbours, sqrt(MAX)+-1, 0x55../0xAA..); oracle = exact i128 arithmetic + representability test; non-trivial = program whose observed outputs take at least 2 distinct values",
+            "rule": "one program per (operator, type, shape in {var-var, var-const, const-var}, constant); one per cast pair and per cast chain x as A as B (every intermediate and final primitive type); 8-bit operand types and 8/16-bit cast sources are swept over their whole value domain, wider types over boundary sets (all 2^k, 2^k+-1, MIN/MAX neighbours, sqrt(MAX)+-1, 0x55../0xAA..); oracle = exact i128 arithmetic + representability test; non-trivial = program whose observed outputs take at least 2 distinct values",
             "samples": samples,
             "programs": counters.get("programs"),
             "expected_panic_inputs": counters.get("panic_inputs"),
